@@ -195,7 +195,7 @@ func (s *metricSchemaStore) PrepareFlush() {
 	s.lock.Lock()
 	defer s.lock.Unlock()
 
-	if s.immutable == nil {
+	if s.immutable == nil || s.immutable.IsEmpty() {
 		s.immutable = s.mutable
 		s.mutable = imap.NewIntMap[*metric.Schema]()
 	}
